@@ -302,6 +302,7 @@ fn main() {
         "C22" | "C35" => run_c22(&tier, &property, &mut out),
         "C15" => vmc::c15::run(&tier, &mut out),
         "C23" => vmc::c23::run(&tier, &mut out),
+        "C25" => vmc::c25::run(&tier, &mut out),
         "C16" => vmc::snapmc::run_c16(&tier, &mut out),
         "C17" => vmc::snapmc::run_c17(&tier, &mut out),
         _ => {
